@@ -1488,8 +1488,13 @@ class FortranReaderBase:
                 if not line[6:].strip():
                     # check for a blank line
                     if name is not None:
-                        self.error("No construct following construct-name.")
-                    elif label is not None:
+                        # A construct name with nothing after it. Return it
+                        # as an ordinary line so that the consumer reports a
+                        # syntax error for this line.
+                        return self.line_item(
+                            name + ":", startlineno, self.linecount, label, None
+                        )
+                    if label is not None:
                         self.warning(
                             "Label must follow nonblank character (F2008:3.2.5_2)"
                         )
@@ -1667,7 +1672,10 @@ class FortranReaderBase:
             message = "Label must follow nonblank character (F2008:3.2.5_2)"
             self.warning(message)
         if name is not None:
-            self.error("No construct following construct-name.")
+            # A construct name with nothing after it. Return it as an
+            # ordinary line so that the consumer reports a syntax error for
+            # this line.
+            return self.line_item(name + ":", startlineno, endlineno, label, None)
 
         # If this point is reached, the line is a comment or is
         # blank. If it is a comment, it has been pushed onto the
